@@ -390,6 +390,10 @@ http_run(Params *p)
 		if (rv != 0)
 			VIOL("stuck_after_enomem", "add_handler keeps failing");
 	}
+	const bool  errpage = p->draw("errpage", 0, 1) != 0;
+	const char *page    = "<html>nothing of that name here</html>";
+	if (errpage)
+		RETRY(nng_http_server_set_error_page(srv, NNG_HTTP_STATUS_NOT_FOUND, page), "nng_http_server_set_error_page");
 	RETRY(nng_http_server_start(srv), "nng_http_server_start");
 	RETRY(nng_http_client_alloc(&cli, url), "nng_http_client_alloc");
 	for (int attempt = 0;; attempt++) {
@@ -429,6 +433,54 @@ http_run(Params *p)
 		nng_http_close(conn);
 		if (trv == NNG_ECONNSHUT || trv == NNG_ECONNRESET || trv == NNG_ECLOSED) {
 			// the server side lost this one connection
+			if (sim_alloc_fault_hit() == 0)
+				h_fatal("transact failed %d", trv);
+			sim_probe("c20_best_effort_loss");
+			continue;
+		}
+		chk(trv, "nng_http_transact", true);
+	}
+	// a request for something that is not there, with URIs too long for the
+	// connection's built-in buffer, answered with the custom error page
+	for (int attempt = 0; errpage; attempt++) {
+		if (attempt > 6)
+			VIOL("stuck_after_enomem", "http transaction does not complete after a single allocation failure");
+		UAio u;
+		if (u.aio == NULL)
+			continue;
+		nng_aio_set_timeout(u.aio, 500);
+		u.arm("http_connect");
+		nng_http_client_connect(cli, u.aio);
+		u.wait(0);
+		if (chk(u.result, "nng_http_client_connect", true) != 0)
+			continue;
+		nng_http   *conn = (nng_http *) nng_aio_get_output(u.aio, 0);
+		std::string l1   = "/nope/" + std::string(230, 'a');
+		std::string l2   = "/nope/" + std::string(250, 'b');
+		RETRY(nng_http_set_uri(conn, l1.c_str(), NULL), "nng_http_set_uri");
+		RETRY(nng_http_set_uri(conn, l2.c_str(), "q=1"), "nng_http_set_uri");
+		if (strcmp(nng_http_get_uri(conn), (l2 + "?q=1").c_str()) != 0)
+			VIOL("unclean_error", "nng_http_set_uri succeeded but the URI is '%.40s...'", nng_http_get_uri(conn));
+		u.arm("http_transact");
+		nng_http_transact(conn, u.aio);
+		u.wait(0);
+		int trv = u.result;
+		if (trv == 0) {
+			void  *body;
+			size_t len;
+			nng_http_get_body(conn, &body, &len);
+			bool good = nng_http_get_status(conn) == NNG_HTTP_STATUS_NOT_FOUND && len == strlen(page) &&
+			    memcmp(body, page, len) == 0;
+			if (!good && sim_alloc_fault_hit() == 0)
+				h_fatal("http status %d, %zu bytes", (int) nng_http_get_status(conn), len);
+			nng_http_close(conn);
+			if (good)
+				break;
+			sim_probe("c20_http_error_status");
+			continue;
+		}
+		nng_http_close(conn);
+		if (trv == NNG_ECONNSHUT || trv == NNG_ECONNRESET || trv == NNG_ECLOSED) {
 			if (sim_alloc_fault_hit() == 0)
 				h_fatal("transact failed %d", trv);
 			sim_probe("c20_best_effort_loss");
